@@ -209,6 +209,12 @@ func VH_C10_trust(caseID int) {
 		hdrs = [][2]string{{"X-Forwarded-Protocol", "https"}, {"X-Forwarded-Host", "a.io, b.io"}, {"X-Real-Ip", val}}
 	}
 
+	// earlier requests from other peers were served by the same pooled context
+	// (the last one is a loopback peer: trusted under some configurations, untrusted under others)
+	warm := []net.IP{{8, 8, 8, 8}, {127, 0, 0, 1}}
+	for _, w := range warm {
+		_ = vC10Probe(app, w, nil, false)
+	}
 	with := vC10Probe(app, peer, hdrs, false)
 	without := vC10Probe(app, peer, nil, false)
 
